@@ -232,8 +232,14 @@ def run_body_factory(name, N, G, seed):
         from artap.algorithm import EvaluatorType
         from .c_support import run_algorithm, std_objective
         f = std_objective(1)
+        prepare = None
+        if name in ("OMOPSO", "SMPSO", "PSOGA"):
+            # the swarm algorithms take the evaluator as an attribute (their next generations are deep copies of selected particles)
+            def prepare(problem, alg):
+                from artap.operators import WorstCaseEvaluator
+                alg.evaluator = WorstCaseEvaluator(alg)
         problem, alg, exc = run_algorithm(name, ctx, seed, N, G, n_params=2, n_costs=1, evaluator=EvaluatorType.WORST_CASE,
-                                          param_extra=[{"tol": 0.05}, {"tol": 0.01}], f=f,
+                                          param_extra=[{"tol": 0.05}, {"tol": 0.01}], f=f, prepare=prepare,
                                           shim_cfg={"extreme_values": False})
         out = []
         desc = "%s N=%d G=%d with the worst-case evaluator" % (name, N, G)
@@ -244,10 +250,16 @@ def run_body_factory(name, N, G, seed):
             if id(ind) in seen:
                 continue
             seen.add(id(ind))
-            if len(ind.costs) != 2:
+            if len(ind.costs) == 0 and name in ("OMOPSO", "SMPSO", "PSOGA"):
+                continue            # (swarm runs record neighbour designs and unevaluated copies as well)
+            if len(ind.costs) >= 1 and ind.children and ind.costs[0] != f(list(ind.vector))[0]:
+                out.append(("C14:run:%s:user-objective-overwritten" % name, "design %r of generation %r has costs %r, its objective value is %r; %s" % (
+                    list(ind.vector), ind.population_id, ind.costs, f(list(ind.vector))[0], desc)))
+                break
+            if ind.children and len(ind.costs) != 2 or (not ind.children and name not in ("OMOPSO", "SMPSO", "PSOGA") and len(ind.costs) != 2):
                 out.append(("C14:run:%s:cost-length" % name, "an individual of generation %r has costs %r; %s" % (ind.population_id, ind.costs, desc)))
                 break
-            if len(ind.costs_signed) != 3:
+            if ind.children and len(ind.costs_signed) != 3 or (not ind.children and name not in ("OMOPSO", "SMPSO", "PSOGA") and len(ind.costs_signed) != 3):
                 out.append(("C14:run:%s:signed-length" % name, "an individual has signed costs %r; %s" % (ind.costs_signed, desc)))
                 break
             if ind.children:
@@ -355,7 +367,7 @@ def replay(sub, case):
 def run(tier, seed):
     import artap.algorithm_NSGAII, artap.algorithm_genetic  # noqa: F401,E401
     shards = [("worst", n, m) for n in (1, 2, 3) for m in (1, 2)] + [("grad",), ("gd",)]
-    for name in ("EpsMOEA", "NSGAII"):
+    for name in ("EpsMOEA", "NSGAII", "OMOPSO", "SMPSO"):
         for N in (2, 3):
             for G in (2, 3):
                 shards.append(("run", name, N, G, seed))
